@@ -356,3 +356,59 @@ Proof.
   intros j Hj. pose proof (rank_eqb_name sn j) as He. cbv zeta in He. rewrite He by exact Hj.
   unfold sn. rewrite map_map. reflexivity.
 Qed.
+
+(* ---------------- plate.unique_sample_ids: the ranks of plate_unique_samples ---------------- *)
+(* ranks in a strictly sorted list are strictly monotone *)
+Lemma rank_monotone (su : list name) : SSorted name_cmp su -> forall a b, In a su -> In b su ->
+  name_cmp a b = Lt -> index_of a su < index_of b su.
+Proof.
+  induction su as [|y su IH]; intros HS a b Ha Hb Hlt; [destruct Ha|].
+  inversion HS as [|? ? HS' Hall]; subst. rewrite Forall_forall in Hall. cbn [index_of].
+  destruct (name_eqb a y) eqn:Ea.
+  - apply name_eqb_eq in Ea. subst a. destruct (name_eqb b y) eqn:Eb; [|lia].
+    apply name_eqb_eq in Eb. subst b. exfalso. exact (lt_irrefl name_cmp name_cmp_spec y Hlt).
+  - destruct Ha as [->|Ha]; [rewrite name_eqb_refl in Ea; discriminate|].
+    destruct (name_eqb b y) eqn:Eb.
+    + apply name_eqb_eq in Eb. subst b. exfalso. apply (lt_irrefl name_cmp name_cmp_spec a).
+      eapply (cmp_trans _ name_cmp_spec); [exact Hlt | exact (Hall a Ha)].
+    + destruct Hb as [->|Hb]; [rewrite name_eqb_refl in Eb; discriminate|]. specialize (IH HS' a b Ha Hb Hlt). lia.
+Qed.
+
+Lemma map_rank_sorted (su l : list name) : SSorted name_cmp su -> (forall x, In x l -> In x su) -> SSorted name_cmp l ->
+  SSorted Z.compare (map (rank_in su) l).
+Proof.
+  intros HS Hin Hl. induction Hl as [|a l Hl' IH Hall]; cbn [map]; [constructor|].
+  constructor; [apply IH; intros x Hx; apply Hin; now right|].
+  rewrite Forall_forall in *. intros z Hz. apply in_map_iff in Hz. destruct Hz as (b & <- & Hb).
+  unfold C01Sort.lt, rank_in. apply Z.compare_lt_iff. apply Nat2Z.inj_lt.
+  apply rank_monotone; [exact HS | apply Hin; now left | apply Hin; now right | exact (Hall b Hb)].
+Qed.
+
+(* np.unique of ranks = ranks of np.unique of names *)
+Lemma sort_uniq_ranks (su l : list name) : SSorted name_cmp su -> (forall x, In x l -> In x su) ->
+  sort_uniq Z.compare (map (rank_in su) l) = map (rank_in su) (sort_uniq name_cmp l).
+Proof.
+  intros HS Hin.
+  rewrite <- (sort_uniq_of_sorted Z.compare Zcmp_spec (map (rank_in su) (sort_uniq name_cmp l))).
+  - apply (sort_uniq_ext Z.compare Zcmp_spec). intros z. rewrite !in_map_iff.
+    split; intros (n & Hz & Hn); exists n; (split; [exact Hz|]); now apply (sort_uniq_In name_cmp name_cmp_spec).
+  - apply map_rank_sorted; [exact HS | | apply (sort_uniq_sorted name_cmp name_cmp_spec)].
+    intros x Hx. apply Hin. exact (proj1 (sort_uniq_In name_cmp name_cmp_spec l x) Hx).
+Qed.
+
+Lemma In_vselect {A} sel (l : list A) x : In x (vselect sel l) -> In x l.
+Proof. rewrite <- select_vselect. apply In_select. Qed.
+
+(* plate.unique_sample_ids of a plate of a screen with fresh sample ids: the ranks (among the screen's sorted sample names) of
+   [plate_unique_samples] - so `len(...) != 1` and `...[0]` in _get_plate_sample_id speak of the same sample *)
+Theorem src_view_unique_sample_ids_are_plate_unique_samples : forall v : view, sample_ids_fresh (v_parent v) ->
+  src_view_unique_sample_ids v
+  = Ok (map (rank_in (sample_names (s_rows (v_parent v)))) (plate_unique_samples (v_sel v) (s_rows (v_parent v)))).
+Proof.
+  intros v (m & Hm). destruct (src_view_props_are_model v) as (_ & _ & _ & H4 & _). rewrite H4. f_equal.
+  unfold view_unique_sids, view_sids, plate_unique_samples, sample_names.
+  rewrite (fresh_ids_are_ranks _ _ _ _ Hm), !select_map, select_vselect.
+  apply sort_uniq_ranks; [apply (sort_uniq_sorted name_cmp name_cmp_spec)|].
+  intros x Hx. apply (sort_uniq_In name_cmp name_cmp_spec). apply in_map_iff in Hx. destruct Hx as (r & <- & Hr).
+  apply in_map. eapply In_vselect. exact Hr.
+Qed.
